@@ -126,6 +126,35 @@ def _iroot(n: int, q: int) -> Optional[int]:
     return None
 
 
+def eval_formula(f, assign):
+    """truth value of a pred-facet formula under a (partial) assignment of its atoms; None if undecided"""
+    t = f[0]
+    if t == "const":
+        return bool(f[1])
+    if t == "atom":
+        return assign.get(f[1])
+    if t == "not":
+        v = eval_formula(f[1], assign)
+        return None if v is None else (not v)
+    vals = [eval_formula(x, assign) for x in f[1:]]
+    if t == "and":
+        if any(v is False for v in vals):
+            return False
+        return True if all(v is True for v in vals) else None
+    if t == "or":
+        if any(v is True for v in vals):
+            return True
+        return False if all(v is False for v in vals) else None
+    if t == "xor":
+        if any(v is None for v in vals):
+            return None
+        r = False
+        for v in vals:
+            r ^= v
+        return r
+    return None
+
+
 def _broadcast_only(idx: Node) -> bool:
     """index made of full slices, None (newaxis) and Ellipsis only"""
     items = idx.args if idx.op == "Tuple" else [idx]
@@ -171,6 +200,12 @@ class PolyFacet:
         self.assume: Dict[int, bool] = {}
         # with gather_transparent: x[m] where x was last stored under the same mask m evaluates to the stored value
         self.forward_loads = False
+        # region specialisation: (pred facet, {atom key: bool}).  A masked store whose mask is decided by the
+        # assignment evaluates to the stored value (mask true) or to the previous version (mask false); np.where
+        # likewise.  Used to evaluate "the value an element gets in this cell of the mask partition".
+        self.cell = None
+        # canonical atoms: hook(node) -> hashable key or None; nodes with the same key are one atom
+        self.canon = None
 
     def zw(self, mask: Node):
         v = self.g.vn(mask)
@@ -191,6 +226,10 @@ class PolyFacet:
         return {((aid, Fraction(1)),): Fraction(1)}
 
     def node_atom(self, n: Node) -> Val:
+        ck = self.canon(n) if self.canon is not None else None
+        if ck is not None:
+            aid = self.atom(("canon", ck), kind="node", node=n, canon=ck)
+            return Val(Rat(self.atom_poly(aid)))
         aid = self.atom(("node", self.g.vn(n)), kind="node", node=n)
         return Val(Rat(self.atom_poly(aid)))
 
@@ -345,7 +384,7 @@ class PolyFacet:
         return c
 
     def _of(self, n: Node) -> Optional[Val]:
-        if self.opaque(n):
+        if self.opaque(n) or (self.canon is not None and self.canon(n) is not None):
             return self.node_atom(n)
         op = n.op
         if op == "Const":
@@ -390,6 +429,14 @@ class PolyFacet:
                 return self.of(n.args[0])
             if _broadcast_only(n.args[1]):
                 return self.of(n.args[0])       # x[:, None] only adds an axis
+            return self.node_atom(n)
+        if op == "Scatter" and self.cell is not None:
+            base, idx, val = n.args
+            t = eval_formula(self.cell[0].formula(idx), self.cell[1])
+            if t is True:
+                return self.of(val)
+            if t is False:
+                return self.of(base)
             return self.node_atom(n)
         if op == "Scatter":
             base, idx, val = n.args
@@ -443,6 +490,18 @@ class PolyFacet:
                 aid = self.atom((SUM_FUNCS[q], a.rat.key(), tuple(sorted(a.zc)), self.g.vn(axn)),
                                 kind=SUM_FUNCS[q], inner=a, node=n)
                 return Val(Rat(self.atom_poly(aid)))
+            if q in ("numpy.full", "numpy.full_like") and len(args) >= 2:
+                return self.of(args[1])
+            if q in ("numpy.zeros", "numpy.zeros_like") and args:
+                return self.const(0)
+            if q in ("numpy.ones", "numpy.ones_like") and args:
+                return self.const(1)
+            if q in ("numpy.empty", "numpy.empty_like") and args and self.cell is not None:
+                return Val(Rat(self.atom_poly(self.atom(("undefined",), kind="undefined"))))
+            if q == "numpy.where" and len(args) == 3 and self.cell is not None:
+                t = eval_formula(self.cell[0].formula(args[0]), self.cell[1])
+                if t is not None:
+                    return self.of(args[1] if t else args[2])
             if q == "numpy.where" and len(args) == 3:
                 z = self.of(args[2]).rat.is_const()
                 if z == 0:
